@@ -28,7 +28,11 @@ fn rnd_ip(r: &mut Rng) -> std::net::IpAddr {
 }
 fn rnd_sa(r: &mut Rng) -> SocketAddr { SocketAddr::new(rnd_ip(r), *r.pick(&[0u16, 1, 25565, 65535, 40000])) }
 fn rnd_name(r: &mut Rng) -> String {
-    match r.below(5) { 0 => "Notch".into(), 1 => "jeb_".into(), 2 => r.utf8(12), _ => format!("Player{}", r.below(1000)) }
+    match r.below(7) { 0 => "Notch".into(), 1 => "jeb_".into(), 2 => r.utf8(12),
+        // names a "sanitising" reader would alter: trailing / leading / inner whitespace, NUL, NBSP
+        5 => format!("Player{}{}", r.below(1000), r.pick(&[" ", "\0", "\t", "\r\n", "\u{a0}", "  "])),
+        6 => format!("{}Player {}", r.pick(&[" ", "\u{a0}", ""]), r.below(1000)),
+        _ => format!("Player{}", r.below(1000)) }
 }
 fn rnd_target(r: &mut Rng, i: usize) -> Target {
     let mut meta = HashMap::new();
@@ -133,8 +137,8 @@ fn base_ads(r: &mut Rng) -> AdScript {
     for l in ["en_us", "de", "fr_FR"] {
         if r.chance(2, 3) {
             let mut m = HashMap::new();
-            if r.chance(4, 5) { m.insert("disconnect_no_target".to_string(), format!("no target ({})", l)); }
-            if r.chance(4, 5) { m.insert("disconnect_timeout".to_string(), format!("timed out ({})", l)); }
+            if r.chance(4, 5) { m.insert("disconnect_no_target".to_string(), format!("no target \u{2013} kein Ziel verf\u{fc}gbar ({})", l)); }
+            if r.chance(4, 5) { m.insert("disconnect_timeout".to_string(), format!("timed out \u{2013} Zeit\u{fc}berschreitung ({})", l)); }
             loc_table.insert(l.to_string(), m);
         }
     }
@@ -193,7 +197,7 @@ fn build(fam: &'static str, r: &mut Rng, p: &Params, ads: AdScript, secret: Opti
         acts.push(Act::Eof);
     }
     Scenario { family: fam, client_addr: client, secret, max_len: 10_000, expiry: 21_600, ads, acts, clock: FIXED_NOW,
-               max_read_chunk: 0, write_script: vec![], tear_at: None, note }
+               max_read_chunk: 0, write_script: vec![], tear_at: None, glue: false, note }
 }
 
 // ------------------------------------------------------------------ printing
@@ -511,7 +515,7 @@ fn main() {
                     for l in ["en_us", "en", "de", "de_DE", "zh_CN", "fr", "", "_"] {
                         if r.chance(1, 2) {
                             let mut m = HashMap::new();
-                            if r.chance(4, 5) { m.insert("disconnect_no_target".to_string(), format!("kein Ziel [{}]", l)); }
+                            if r.chance(4, 5) { m.insert("disconnect_no_target".to_string(), format!("kein Ziel verf\u{fc}gbar \u{2013} sp\u{e4}ter [{}]", l)); }
                             if r.chance(4, 5) { m.insert("disconnect_timeout".to_string(), format!("Zeit [{}]", l)); }
                             ads.loc_table.insert(l.to_string(), m);
                         }
@@ -574,7 +578,7 @@ fn main() {
                 // two-connection histories: authenticate + get transferred, then come back with what was stored
                 for i in 0..(12 * scale) {
                     let expiry: u64 = 21_600;
-                    let secret = match i % 5 { 0 => None, 1 => Some(r.bytes(1)), 2 => Some(r.bytes(64)), 3 => Some(r.bytes(200)), _ => Some(r.bytes(16)) };
+                    let secret = match i % 6 { 0 => None, 1 => Some(r.bytes(1)), 2 => Some(r.bytes(64)), 3 => Some(r.bytes(200)), 5 => Some(vec![]), _ => Some(r.bytes(16)) };   // Some(vec![]): an empty secret file is still a secret
                     let client = if i % 6 == 5 { SocketAddr::new("::ffff:203.0.113.7".parse().unwrap(), 51_000) } else { rnd_sa(&mut r) };
                     let mut p1 = base_params(&mut r, Intent::Login);
                     p1.session_payload = match i % 3 { 0 => None, 1 => Some(b"null".to_vec()),
@@ -713,6 +717,13 @@ fn main() {
                     if i % 3 == 2 { sc.write_script = (0..60).map(|k| match k % 4 { 0 => WriteResp::Pending, 1 => WriteResp::Accept(3), 2 => WriteResp::Pending, _ => WriteResp::Accept(usize::MAX) }).collect(); }
                     let rec1 = run_scenario(&sc, &mut Rng(seed_a ^ 1));
                     print_case(&sc, &rec1, &pubkey);
+                    if intent != Intent::Status && i % 2 == 0 {
+                        // the same scenario with the client's first encrypted frames glued to its Encryption Response
+                        let mut g = build("SEG", &mut Rng(seed_a), &p, ads.clone(), secret.clone(), client, format!("seg {} glued to the encryption response", i));
+                        g.glue = true;
+                        let recg = run_scenario(&g, &mut Rng(seed_a ^ 1));
+                        print_case(&g, &recg, &pubkey);
+                    }
                     let ids = |rec: &RunRecord| g_list(&rec.sent.iter().map(|x| format!("{}", g_z(x.1))).collect::<Vec<_>>());
                     let kinds = |rec: &RunRecord| g_list(&rec.calls.iter().map(|c| format!("{}", match &c.1[..6] { "(CStat" => 1, "(CAuth" => 2, "CDisco" => 3, "(CFilt" => 4, "(CSele" => 5, _ => 6 })).collect::<Vec<_>>());
                     emit_case("SEGP", &format!("{{| sp_ids0 := {}; sp_ids1 := {}; sp_calls0 := {}; sp_calls1 := {}; sp_out0 := {}; sp_out1 := {}; sp_garbled := {} |}}",
